@@ -18,7 +18,7 @@ RULE = (
     "Hypothesis draws a point of the constructor space: class in {UNet, ResNet, DilResNet, ConvBlock} x depth 1..3 x blocks 1..2 x num_conv 1..2 x downsamples 1..2 x activation {relu,gelu,tanh,None} x group norm on/off x "
     "pre-activation on/off x bias mode {auto,mean,scalar,True,False} x input/output signatures (k<=1 with normalisation or d=3, k<=2 otherwise, pseudo-types, unequal channels, drawn order) x default or explicit "
     "mid_keys x d in {2,3} x torus flag x group G in {B_d, rotations, C2^d} with side-3 and side-2 banks x spatial extent compatible with the pooling. Every trainable inexact leaf except the filter banks is replaced "
-    "by leaf + s*N(0,1), s in {0.2,0.3,0.5}; inputs are N(0,1). For a generating set of G plus 3 drawn elements (thorough tier, d=2: all of G) and every output block: relative defect of model(g.x) vs g.model(x) "
+    "by leaf + s*N(0,1), s in {0.2,0.3,0.5}; inputs are N(0,1). For a generating set of G plus 3 drawn elements (thorough tier, d=2: all of G) and every output block: relative defect (max|l-r| / max(|l|,|r|,1e-2)) of model(g.x) vs g.model(x) "
     "with the requested output type < 2e-3, reported only if it persists on 3 fresh inputs. On toroidal inputs: arbitrary cyclic shifts (ResNets, ConvBlock), shifts by multiples of 2^downsamples (U-Net). "
     "Non-trivial: max parameter change > 0.1, a g with det -1 was applied, output not ~0; distinct key = constructor tuple."
 )
@@ -32,6 +32,9 @@ CONFIG = {
     "quick": {"examples": 64, "shards": 16, "shrink_s": 60, "time_budget_s": 280},
     "thorough": {"examples": 600, "shards": 16, "shrink_s": 240, "time_budget_s": 1500},
 }
+
+
+FLOOR = 1e-2  # outputs of freshly initialised networks can be small: measure the defect relative to max(|lhs|,|rhs|,1e-2)
 
 
 def draw_case(data, tier):
@@ -87,7 +90,7 @@ def check_equivariance(cfg, model, prop="C07", evals_box=None):
         for t in b:
             if lhs[t].shape != ref.transport(b[t].shape[1:1 + d], g) and False:
                 pass
-            df = rel_defect(lhs[t], ref.action(d, b[t], t[1], g, lead=1))
+            df = rel_defect(lhs[t], ref.action(d, b[t], t[1], g, lead=1), floor=FLOOR)
             if df > worst[0]:
                 worst = (df, t)
         return worst
@@ -101,7 +104,7 @@ def check_equivariance(cfg, model, prop="C07", evals_box=None):
         Xp = {t: (a * (1.0 + 1e-6 * rngp.standard_normal(a.shape))).astype(np.float32) for t, a in Xd.items()}
         a0 = {t: np.asarray(v) for t, v in run(Xd).items()}
         a1 = {t: np.asarray(v) for t, v in run(Xp).items()}
-        return any(rel_defect(a1[t], a0[t]) > FLOAT_TOL / 4 for t in a0)
+        return any(rel_defect(a1[t], a0[t], floor=FLOOR) > FLOAT_TOL / 4 for t in a0)
 
     for g in elems:
         evals += 1
@@ -115,7 +118,7 @@ def check_equivariance(cfg, model, prop="C07", evals_box=None):
                 labels.append("ill_conditioned_excluded")
                 continue
             return viol(f"{prop}/equivariance/{cfg['cls']}", f"g={np.asarray(g).tolist()} det={ref.det(g)}: output block {t} relative defect {df:.3g}; config {netgen.cfg_key(cfg)}"), labels, evals, base_np
-    if tor:
+    if tor and not cfg.get("no_translation"):
         labels.append("translations")
         step = 2 ** cfg["num_downsamples"] if cfg["cls"] == "UNet" else 1
         shp = netgen.model_shape(cfg)
@@ -131,7 +134,7 @@ def check_equivariance(cfg, model, prop="C07", evals_box=None):
                 labels.append("nonfinite_or_huge_excluded")
                 continue
             for t in base_np:
-                df = rel_defect(lhs[t], ref.roll(base_np[t], s, d, lead=1))
+                df = rel_defect(lhs[t], ref.roll(base_np[t], s, d, lead=1), floor=FLOOR)
                 if df > FLOAT_TOL and ill_conditioned(X):
                     labels.append("ill_conditioned_excluded")
                     continue
